@@ -44,7 +44,10 @@ def verdict(ctx, rule, ok, key, fn, detail, cfg):
 def predicate(ctx, rule, path, spec, assume=(), name=None, **kw):
     """denotation of a boolean function == spec"""
     name = name or path.rsplit('::', 1)[1]
+    optional = kw.pop('optional', False)
     for cfg in ('dev', 'rel'):
+        if optional and ctx.crate(cfg).fn(path) is None:
+            continue        # a one-line private helper written in place at its call sites: read there by the rules of its callers
         an = analyse(ctx, cfg, path, list(assume), **kw)
         ip, fn = an.ip, an.fn
         den = FALSE
@@ -66,7 +69,10 @@ def predicate(ctx, rule, path, spec, assume=(), name=None, **kw):
 def accessor(ctx, rule, path, leaves, assume=(), panics=('index', 'bounds', 'slice'), name=None, argidx=1, **kw):
     """leaves: list of (guard formula or None, expected returned term or None to skip, expected writes dict or None)"""
     name = name or path.rsplit('::', 1)[1]
+    optional = kw.pop('optional', False)
     for cfg in ('dev', 'rel'):
+        if optional and ctx.crate(cfg).fn(path) is None:
+            continue        # a one-line private helper written in place at its call sites: read there by the rules of its callers
         an = analyse(ctx, cfg, path, list(assume), **kw)
         ip, fn = an.ip, an.fn
         hit = set()
@@ -117,7 +123,7 @@ def regex_predicates(ctx):
     predicate(ctx, R, B + 'match_char_set', assume=[le(T.fld(rng, 'start', 'u32'), T.fld(rng, 'end', 'u32')), le(T.fld(s, 'start', 'u32'), T.fld(s, 'end', 'u32'))], spec=all_(discr(a0, 2), le(T.fld(s, 'start', 'u32'), T.fld(rng, 'start', 'u32')), le(T.fld(rng, 'end', 'u32'), T.fld(s, 'end', 'u32'))))
     predicate(ctx, R, RE_ + 'RE::is_empty', discr(T.fld(a0, 'expr'), 0))
     accessor(ctx, R, RE_ + 'RE::num_deriv_classes', [(None, T.typed(('len', ('fld', ('fld', a0, 'deriv_class'), 'list')), 'usize'), {})])
-    accessor(ctx, R, B + 'deriv_class::rc', [(None, a0, None)], argidx=1)
+    accessor(ctx, R, B + 'deriv_class::rc', [(None, a0, None)], argidx=1, optional=True)
     # binary set constructors: both operands flattened into one vector, in order, then the n-ary constructor
     RM = RE_ + 'ReManager::'
     for name, flat, make in (('inter', 'flatten_inter', 'make_inter'), ('union', 'flatten_union', 'make_union')):
